@@ -73,6 +73,14 @@ func c15users(c *Ctx) {
 							return walk(x.X)
 						case *ssa.Parameter, *ssa.Const, *ssa.Global, *ssa.FreeVar, *ssa.Alloc:
 							return ""
+						case *ssa.Call:
+							// (round 9) a value computed by a helper over the whole configuration (the heaviest weight, the total …)
+							for _, a := range x.Call.Args {
+								switch a.Type().Underlying().(type) {
+								case *types.Slice, *types.Map, *types.Array:
+									return fmt.Sprintf("the result of %s applied to the whole node list (at %s)", calleeName(x.Common()), c.P.Pos(x.Pos()))
+								}
+							}
 						}
 						if i, ok := v.(ssa.Instruction); ok {
 							for _, op := range i.Operands(nil) {
